@@ -161,6 +161,26 @@ Theorem C11_flip_game_withheld : forall s s' G G' b0 b0', SymGame flip_sq flip_d
 Proof. exact flip_game_withheld. Qed.
 Print Assumptions C11_flip_game_withheld.
 
+(* ... and the results reported at turn starts (colours swapped by tres), up to collisions on either side *)
+Theorem C11_mirror_game_result : forall s s' G G' b0 b0' pp, SymGame mirror_sq mirror_dir (fun o => o) s s' G G' b0 b0' ->
+  ph s = PlayPhase pp -> step_of pp = 0 ->
+  NoCollisionState s G b0 -> NoCollisionState s' G' b0' ->
+  exists r, is_terminal s = term_of r /\ is_terminal s' = term_of (tres (fun o => o) r).
+Proof. exact mirror_game_result. Qed.
+Print Assumptions C11_mirror_game_result.
+
+Theorem C11_flip_game_result : forall s s' G G' b0 b0' pp, SymGame flip_sq flip_dir negb s s' G G' b0 b0' ->
+  ph s = PlayPhase pp -> step_of pp = 0 ->
+  NoCollisionState s G b0 -> NoCollisionState s' G' b0' ->
+  exists r, is_terminal s = term_of r /\ is_terminal s' = term_of (tres negb r).
+Proof. exact flip_game_result. Qed.
+Print Assumptions C11_flip_game_result.
+
+Theorem C11_no_collision_state : forall s G b0, NoCollisionState s G b0 <->
+  (NoCollisionAt s G b0 (board s) /\ forall i d, NoCollisionAt s G b0 (board (take_action s (Move i d)))).
+Proof. intros. reflexivity. Qed.
+Print Assumptions C11_no_collision_state.
+
 (* the hypotheses of the whole-game theorems are satisfiable: a concrete position (Gold R c2, D d2; Silver r c7, c d7;
    Gold to move) and its colour-swapped rank-flipped image form a SymGame, a step is offered, and the game proceeds *)
 Theorem C11_game_nonvacuous :
